@@ -583,6 +583,9 @@ char *recip;
  domain = recip + i + 1;
  domainlen = str_len(domain);
 
+ /* rewrite() never prepends for a domain listed in locals */
+ if (constmap(&maplocals,domain,domainlen)) return recip;
+
  for (i = 0;i <= domainlen;++i)
    if ((i == 0) || (i == domainlen) || (domain[i] == '.'))
      if ((prepend = constmap(&mapvdoms,domain + i,domainlen - i)))
